@@ -551,7 +551,7 @@ func ExpandTemplate(parts []gen.TmplPart, ts int64, line string, labels map[stri
 			sb.WriteString(regexWrapRe.ReplaceAllLiteralString(labels[t.A], "<$1>"))
 		case "regex_count":
 			sb.WriteString(strconv.Itoa(len(regexCountRe.FindAllStringIndex(labels[t.A], -1))))
-		case "fail_unixToTime", "fail_regex":
+		case "fail_unixToTime", "fail_regex", "fail_field", "fail_argtype", "fail_argcount", "fail_index":
 			return "", true
 		}
 	}
